@@ -163,10 +163,10 @@ func (p *c12Proc) do(cs *c12Case) (*c12Outcome, *c12Crash, error) {
 			p.cmd.Wait() // the child exits by itself after reporting
 		}
 		return &o, nil, nil
-	case <-time.After(20 * time.Second):
+	case <-time.After(60 * time.Second):
 		p.cmd.Process.Kill()
 		p.cmd.Wait()
-		return &c12Outcome{ID: cs.ID, Outcome: "hang", Dump: "child did not report within 20 s (census or watchdog stuck); killed"}, nil, nil
+		return &c12Outcome{ID: cs.ID, Outcome: "hang", Dump: "child did not report within 60 s (its own deadline is at most 32 s); killed"}, nil, nil
 	}
 }
 
@@ -218,6 +218,9 @@ type c12Judged struct {
 func c12RunCases(cases []*c12Case, tier string, W int) ([]c12Judged, error) {
 	res := make([]c12Judged, len(cases))
 	var wg sync.WaitGroup
+	// an endpoint that hung/crashed 4 times is not explored further in this run (each hang costs a deadline)
+	var bmtx sync.Mutex
+	bad := map[string]int{}
 	errs := make(chan error, W)
 	for w := 0; w < W; w++ {
 		wg.Add(1)
@@ -237,6 +240,13 @@ func c12RunCases(cases []*c12Case, tier string, W int) ([]c12Judged, error) {
 						return
 					}
 				}
+				bmtx.Lock()
+				skip := bad[cases[i].Endpoint] >= 4 && cases[i].Class != "tie"
+				bmtx.Unlock()
+				if skip {
+					res[i] = c12Judged{cs: cases[i]}
+					continue
+				}
 				o, cr, err := p.do(cases[i])
 				if err != nil {
 					errs <- err
@@ -245,6 +255,9 @@ func c12RunCases(cases []*c12Case, tier string, W int) ([]c12Judged, error) {
 				res[i] = c12Judged{cases[i], o, cr}
 				if cr != nil || o.Outcome == "hang" || o.Outcome == "memory" {
 					p = nil
+					bmtx.Lock()
+					bad[cases[i].Endpoint]++
+					bmtx.Unlock()
 				}
 			}
 		}(w)
@@ -265,6 +278,9 @@ func c12Confirm(cs *c12Case, tier string) c12Judged {
 		return c12Judged{cs: cs}
 	}
 	o, cr, _ := p.do(cs)
+	if cr == nil && o != nil && (o.Outcome == "hang" || o.Outcome == "memory") {
+		return c12Judged{cs, o, nil} // the child has exited by itself after reporting
+	}
 	if cr == nil {
 		// a detached goroutine may fault just after the response: give it a moment, then ask for a no-op
 		time.Sleep(50 * time.Millisecond)
@@ -309,7 +325,7 @@ func c12Judge(r *h.Result, j c12Judged, tier string, confirm bool) {
 		r.Violate("C12/crash/"+cs.Endpoint+"/"+cr.Class, fmt.Sprintf("%s %s kills the process: %s at %s (%s)", cs.Method, c12Short(cs.Path), cr.Panic, cr.Frame, cr.Exit),
 			replay(map[string]any{"crash": cr}))
 	case j.o == nil:
-		r.Count("outcome:lost")
+		r.Count("outcome:skipped-after-repeated-failures")
 	case j.o.Outcome == "hang" || j.o.Outcome == "memory":
 		r.Count("outcome:" + j.o.Outcome)
 		fam := "hang"
@@ -323,6 +339,9 @@ func c12Judge(r *h.Result, j c12Judged, tier string, confirm bool) {
 		r.Count("outcome:" + o.Outcome)
 		if o.Slow {
 			r.Count("outcome:slow-but-flowing")
+		}
+		if o.AfterAbortMs > 1000 {
+			r.Count("outcome:handler-ran-more-than-1s-after-client-left")
 		}
 		if o.Status != 0 {
 			r.Count(fmt.Sprintf("status:%dxx", o.Status/100))
@@ -353,11 +372,11 @@ func c12(r *h.Result, rng *h.Rng, tier string, replay string) error {
 	if replay != "" {
 		return c12Replay(r, replay, tier)
 	}
-	perEndpoint := 130
+	perEndpoint := 400
 	W := 4
 	switch tier {
 	case "thorough":
-		perEndpoint = 2600
+		perEndpoint = 8000
 		W = 6
 	case "search":
 		perEndpoint = 1500
@@ -383,8 +402,26 @@ func c12(r *h.Result, rng *h.Rng, tier string, replay string) error {
 		if strings.HasSuffix(ep.name, "/echo") || strings.HasSuffix(ep.name, "/misc") || strings.HasSuffix(ep.name, "Settings") || strings.HasSuffix(ep.name, "GetProfileStats") {
 			n = perEndpoint / 10
 		}
+		if tier == "search" && strings.HasPrefix(ep.name, "loki/query") {
+			n *= 4 // the pipelines live here: after a broken obligation look hardest where goroutines and arithmetic are
+		}
 		for i := 0; i < n; i++ {
 			cases = append(cases, c12GenCase(er, len(cases), ep, tier))
+		}
+	}
+	if tier != "quick" {
+		// the client goes away at every chunk boundary class: one request in 40 is repeated with each abort point
+		base := len(cases)
+		for i := 0; i < base; i += 40 {
+			if cases[i].Abort >= 0 {
+				continue
+			}
+			for _, ab := range []int{0, 1, 10, 60, 200, 1000, 5000, 20000} {
+				c := *cases[i]
+				c.ID, c.Abort = len(cases), ab
+				c.Class += " client-abort-sweep"
+				cases = append(cases, &c)
+			}
 		}
 	}
 	js, err := c12RunCases(cases, tier, W)
@@ -470,6 +507,18 @@ func c12Corpus() []*c12Case {
 		// A35
 		win(&c12Case{Endpoint: "tempo/trace", Method: "GET", Class: "corpus A35 long id",
 			Path: "/api/traces/" + strings.Repeat("a", 66), Answers: one(1)}),
+		// fp 0 first, int64 overflow (both found by this check)
+		win(&c12Case{Endpoint: "loki/query_range", Method: "GET", Query: `rate({a="b"}[9223372036854775807ns])`, Class: "corpus overflow inversion",
+			Path: "/loki/api/v1/query_range?query=rate%28%7Ba%3D%22b%22%7D%5B9223372036854775807ns%5D%29&start=-9223372036000000000&end=0&step=9223372036", Answers: []c12Answer{{Shape: "matrix-zero-ts", N: 1, Seed: 5}}}),
+		// known finding: memory (outside the model)
+		win(&c12Case{Endpoint: "loki/query_range", Method: "GET", Query: `last_over_time({a="b"} | logfmt | unwrap v [1s]) by (a)`, Class: "corpus memory finding",
+			Path: "/loki/api/v1/query_range?query=last_over_time%28%7Ba%3D%22b%22%7D+%7C+logfmt+%7C+unwrap+v+%5B1s%5D%29+by+%28a%29&start=0&end=1700000000000000000&step=3600", Answers: one(3)}),
+		// Tempo v2 values: failing fallback query (nil channel)
+		win(&c12Case{Endpoint: "tempo/values", Method: "GET", Class: "corpus nil channel",
+			Path: "/api/v2/search/tag/service.name/values", Answers: []c12Answer{{Shape: "auto", N: 1, Seed: 1, QueryErr: true}}}),
+		// any fault in a pipeline stage killed the process (TamePanic deferred in the nested form); witness from the C09 agent
+		win(&c12Case{Endpoint: "loki/query_range", Method: "GET", Query: `{a="b"} | json | label_format x="y"`, Class: "corpus TamePanic",
+			Path: "/loki/api/v1/query_range?query=%7Ba%3D%22b%22%7D+%7C+json+%7C+label_format+x%3D%22y%22&step=1&start=" + start + "&end=" + end, Answers: one(3)}),
 		// A21
 		win(&c12Case{Endpoint: "loki/query_range", Method: "GET", Query: `count_over_time({a="b"} | json [1m])`, Class: "corpus A21 bucket index",
 			Path: "/loki/api/v1/query_range?query=count_over_time%28%7Ba%3D%22b%22%7D+%7C+json+%5B1m%5D%29&step=60&start=" + start + "&end=" + end, Answers: []c12Answer{{Shape: "logs-at-end", N: 150, Seed: 3}}}),
